@@ -45,6 +45,8 @@ pub struct Bounds {
     pub shard: (usize, usize),
     /// Wall clock cap in seconds (0 = none).
     pub cap_s: u64,
+    /// Number of leading choices that decide which shard owns a subtree.
+    pub shard_depth: usize,
 }
 
 #[derive(Clone, Debug)]
@@ -249,8 +251,8 @@ fn dfs<W: World>(
     let (si, sn) = b.shard;
     let depth = prefix.len();
     // Ownership: the first SHARD_DEPTH choices decide the shard.
-    let owner = shard_of(&prefix[..depth.min(SHARD_DEPTH)], sn);
-    if depth >= SHARD_DEPTH && owner != si {
+    let owner = shard_of(&prefix[..depth.min(b.shard_depth)], sn);
+    if depth >= b.shard_depth && owner != si {
         return;
     }
     crate::breadcrumb::set(prefix);
